@@ -552,6 +552,18 @@ pub struct Sess<R: RoleType, T: IsPacketId> {
     pub dead: bool, // a PANIC was observed: the object is poisoned, stop the trace
     pub armed: [bool; 3],
     pub last_events: Vec<String>,
+    /// structured view of the events of the calls since it was last drained (pair harness)
+    pub obs: Vec<Obs>,
+}
+
+/// what an application does something with
+#[derive(Clone, Debug)]
+pub enum Obs {
+    Send(Vec<u8>),
+    /// a delivered packet: kind nibble, qos, id, topic bytes, payload bytes
+    Recv { kind: u8, qos: u8, pid: u64, topic: Vec<u8>, payload: Vec<u8>, rc: Option<u8> },
+    Close,
+    Err(u16),
 }
 
 pub fn store_descr<T: IsPacketId>(sp: &GenericStorePacket<T>) -> String {
@@ -566,7 +578,7 @@ impl<R: RoleType, T: IsPacketId> Sess<R, T> {
             5 => Version::V5_0,
             _ => Version::Undetermined,
         };
-        Sess { c: GenericConnection::new(v), pw: std::mem::size_of::<T>(), out_lines: vec![], dead: false, armed: [false; 3], last_events: vec![] }
+        Sess { c: GenericConnection::new(v), pw: std::mem::size_of::<T>(), out_lines: vec![], dead: false, armed: [false; 3], last_events: vec![], obs: vec![] }
     }
 
     pub fn digest(&self) -> String {
@@ -608,6 +620,32 @@ impl<R: RoleType, T: IsPacketId> Sess<R, T> {
             match e {
                 GenericEvent::RequestTimerReset { kind, .. } => self.armed[*kind as usize % 3] = true,
                 GenericEvent::RequestTimerCancel(k) => self.armed[*k as usize % 3] = false,
+                GenericEvent::RequestSendPacket { packet, .. } => self.obs.push(Obs::Send(bytes_of(packet))),
+                GenericEvent::RequestClose => self.obs.push(Obs::Close),
+                GenericEvent::NotifyError(e) => self.obs.push(Obs::Err(*e as u16)),
+                GenericEvent::NotifyPacketReceived(p) => {
+                    let (kind, qos, pid, topic, payload, rc) = match p {
+                        GenericPacket::V3_1_1Publish(x) => (3, x.qos() as u8, x.packet_id().map(id_to_u64).unwrap_or(0), x.topic_name().as_bytes().to_vec(), x.payload().as_slice().to_vec(), None),
+                        GenericPacket::V5_0Publish(x) => (3, x.qos() as u8, x.packet_id().map(id_to_u64).unwrap_or(0), x.topic_name().as_bytes().to_vec(), x.payload().as_slice().to_vec(), None),
+                        GenericPacket::V3_1_1Puback(x) => (4, 0, id_to_u64(x.packet_id()), vec![], vec![], None),
+                        GenericPacket::V5_0Puback(x) => (4, 0, id_to_u64(x.packet_id()), vec![], vec![], x.reason_code().map(|r| r as u8)),
+                        GenericPacket::V3_1_1Pubrec(x) => (5, 0, id_to_u64(x.packet_id()), vec![], vec![], None),
+                        GenericPacket::V5_0Pubrec(x) => (5, 0, id_to_u64(x.packet_id()), vec![], vec![], x.reason_code().map(|r| r as u8)),
+                        GenericPacket::V3_1_1Pubrel(x) => (6, 0, id_to_u64(x.packet_id()), vec![], vec![], None),
+                        GenericPacket::V5_0Pubrel(x) => (6, 0, id_to_u64(x.packet_id()), vec![], vec![], None),
+                        GenericPacket::V3_1_1Pubcomp(x) => (7, 0, id_to_u64(x.packet_id()), vec![], vec![], None),
+                        GenericPacket::V5_0Pubcomp(x) => (7, 0, id_to_u64(x.packet_id()), vec![], vec![], None),
+                        GenericPacket::V3_1_1Subscribe(x) => (8, 0, id_to_u64(x.packet_id()), vec![], vec![], None),
+                        GenericPacket::V5_0Subscribe(x) => (8, 0, id_to_u64(x.packet_id()), vec![], vec![], None),
+                        GenericPacket::V3_1_1Unsubscribe(x) => (10, 0, id_to_u64(x.packet_id()), vec![], vec![], None),
+                        GenericPacket::V5_0Unsubscribe(x) => (10, 0, id_to_u64(x.packet_id()), vec![], vec![], None),
+                        GenericPacket::V3_1_1Connect(_) | GenericPacket::V5_0Connect(_) => (1, 0, 0, vec![], vec![], None),
+                        GenericPacket::V3_1_1Connack(_) | GenericPacket::V5_0Connack(_) => (2, 0, 0, vec![], vec![], None),
+                        GenericPacket::V3_1_1Pingreq(_) | GenericPacket::V5_0Pingreq(_) => (12, 0, 0, vec![], vec![], None),
+                        _ => (0, 0, 0, vec![], vec![], None),
+                    };
+                    self.obs.push(Obs::Recv { kind, qos, pid, topic, payload, rc });
+                }
                 _ => {}
             }
         }
